@@ -494,7 +494,14 @@ func ForwarderInitCode() []byte {
 // MineRandom draws mining options (order, coinbase ledger and layout, lock byte, time delta)
 // and mines one block.
 func (a *Actor) MineRandom(t *rapid.T) (*Block, error) {
-	order := rapid.SampledFrom([]int{Zone, Zone, Zone, Zone, Region, Prime, Prime}).Draw(t, "order")
+	return a.MineRandomOrder(t, -1)
+}
+
+// MineRandomOrder is MineRandom with the block order fixed when order >= 0.
+func (a *Actor) MineRandomOrder(t *rapid.T, order int) (*Block, error) {
+	if order < 0 {
+		order = rapid.SampledFrom([]int{Zone, Zone, Zone, Zone, Region, Prime, Prime}).Draw(t, "order")
+	}
 	o := MineOpts{Order: order}
 	o.TimeDelta = uint64(rapid.SampledFrom([]int{1, 1, 4, 5, 6, 30}).Draw(t, "dt"))
 	qiAllowed := a.PrimeNumber() >= params.ControllerKickInBlock+1
